@@ -10,7 +10,10 @@ The truthiness agreement also covers the inline keep/drop matches of the WHERE p
 zero-copy filters, their parallel closures, the post-join filter), discovered from the code.  The WHERE pre-processing is also covered: (fold) optimize_expression folds an expression to a literal only when every
 optimized child was tested to be a literal (a NULL column operand must keep a NULL result); (exact) the columnar
 predicate extractor accepts an expression only on paths that emit a predicate for it (it is the only filter of the
-ungrouped columnar aggregate path); (range) the C02 bound/flag pairing rule of the index range extractor.
+ungrouped columnar aggregate path); (range) the C02 bound/flag pairing rule of the index range extractor; (where) no
+result path forgets the predicate: from execute_with_ctes downwards (callees that receive the same stmt and whose rows
+are returned) every path to a successful return hands stmt.where_clause to some function or passes a branch on which it
+was found absent - necessary, not sufficient: that the receiving function filters with it is decided by the other rules.
 """
 from ..engine.facts import callee_name, callee_path
 from ..engine.tables import enum_switches, switch_arm_regions
@@ -238,3 +241,23 @@ def extra_rules(ctx):
     # ---------------------------------------------------------------- (range) bound and inclusiveness travel together
     from .C02 import range_pairing_rule
     range_pairing_rule(ctx, 'C06.range')
+
+    # ---------------------------------------------------------------- (where) no result path forgets the WHERE clause
+    ctx.rule('C06.where', 'execute_with_ctes and, recursively, every select-executor callee that receives the same stmt and whose rows are returned: no successful '
+             'return is reachable without a call that receives stmt.where_clause, a complete callee, or a branch on which stmt.where_clause is None '
+             '(empty and declining returns excepted)')
+
+    def sat(f, s, g, atoms):
+        out = set()
+        for i, t in f.calls():
+            if any(re.search(r'\bstmt\.where_clause\b', s.op(a)) for a in t['args']):
+                out.add(i)
+        for b, at in atoms.items():
+            if 'where_clause_none' in at:
+                out.add(b)
+        return out
+
+    def describe(cl, f, lines):
+        return (f'{f.nice} has a path to a successful return on which the statement\'s WHERE clause is neither handed to a function nor found absent (through lines '
+                f'{lines}): the rows are returned unfiltered (SELECT 1 WHERE 1 = 0 returns a row)')
+    shared.result_path_rule(ctx, prog, 'C06.where', {'where': sat}, describe, floor=4)
